@@ -288,6 +288,7 @@ func writersimMain(c *Ctx) {
 		seed := c.RunSeed(i)
 		r := rand.New(rand.NewSource(seed))
 		wc := wsGen(r, c.Thorough())
+		c.Begin(seed, wc)
 		vs, evals, _ := runWSCase(c, wc, simrt.NewTape(seed))
 		c.Res.Runs++
 		c.Res.Evaluations += evals
